@@ -49,7 +49,7 @@ INVS = 'TypeOK Export InvOutsideClasses InvCleanDecoderArray'
 CONFIGS = {
     'quick': [
         ('zids', 'zids', {}),
-        ('zorders', 'zorders', dict(pos='{"first"}')),
+        ('zorders', 'zorders', {}),
         ('zbatch2', 'zbatch', dict(maxspans=2)),
         ('zbatch3', 'zbatch', dict(maxspans=3, own='{FALSE}', name='{TRUE}')),
         ('zbig', 'zbig', dict(maxspans=2)),
@@ -73,7 +73,7 @@ CONFIGS = {
 }
 # the plain statement on a small family: expected to give a counterexample (the candidate TLC shows)
 CANDIDATE = ('zbatch', dict(maxspans=2, own='{FALSE}', name='{TRUE}', mod=0),
-             'InvCleanDecoder InvRowCount InvOneTraceRow InvTraceRowFaithful InvTagRowsIdsTimes InvOneTagRowPerAttr InvNoForeignTagRow InvReadBack')
+             'InvRowCount InvOneTraceRow InvTraceRowFaithful InvTagRowsIdsTimes InvOneTagRowPerAttr InvNoForeignTagRow InvReadBack')
 
 REQUIRED_TRAITS = ['zipkin:array', 'zipkin:ndjson', 'otlp:pb', 'ts:number', 'ts:string', 'id:short', 'id:zero', 'id:max', 'id:full',
                    'endpoints:local-first', 'endpoints:remote-first', 'order:ids-last', 'parent:absent', 'name:absent', 'tags:absent',
